@@ -37,7 +37,7 @@ def P(types, footprint, quick=1000, thorough=20000, streams=("structured", "malf
 
 
 CONV_FP = ["*.apply", "*.merge"] + READS + API_GEN
-MAP_AS = ["Map (any nesting) violates this property on the unchanged tree: known findings T1, T2, T3 (KNOWN_FINDINGS.json); for Map the check relies on the correspondence of the faithful model, the refutation witnesses and the monitors' known-finding classes"]
+MAP_AS = ["Map (any nesting) violates this property at VALUE level on the unchanged tree: known findings T1, T2, T3 (KNOWN_FINDINGS.json); for Map values the check relies on the correspondence of the faithful model, the refutation witnesses and the monitors' known-finding classes; at KEY level (key set, contexts, pending removes) the property is proved (proofs/MapKeys.v)"]
 
 PROPS = {
     "C01": P(ALL_REPL, CONV_FP, quick=1000, streams=("structured",),
@@ -47,7 +47,7 @@ PROPS = {
     "C03": P([t for t in ALL_REPL if t not in ("list", "vclock")], CONV_FP + ["*.reset"], quick=1000, streams=("structured",),
              extra_as=["knowledge sets closed under per-actor order"] + MAP_AS),
     "C07": P(["orswot", "mvreg", "mapmv", "mapor", "mapmm"], READS + ["ctx.*"] + ["*.apply", "*.merge"], streams=("structured",),
-             extra_as=["top-level replicas only; Map: structural facts for every state reachable by well-formed ops and merges, the 'exactly the surviving witnesses' clause for Map inherits the status of C05"]),
+             extra_as=["top-level replicas only; Map: structural facts for every state reachable by well-formed ops and merges, the 'exactly the surviving witnesses' clause is proved for top-level Map keys (C07_map_get_context_exact) and for Orswot members"]),
     "C08": P(["orswot", "mvreg", "mapmv", "mapor", "mapmm", "gcounter", "pncounter", "gset", "glist", "merkle", "list"], CONV_FP + ["*.reset"], quick=1000, streams=("structured",),
              extra_as=["each actor's ops delivered in issue order, otherwise arbitrary"] + MAP_AS),
     "C09": P(ALL_REPL, CONV_FP + ["*.reset"], quick=1000, streams=("structured",), extra_as=MAP_AS),
@@ -63,8 +63,10 @@ PROPS = {
              extra_as=["each actor's adds are delivered in issue order (the documented contract); removes in any order",
                        "ops are generated through the public API from reads of the generating replica"]),
     "C05": P(["mapmv", "mapor", "mapmm"], ["map*.*", "orswot.reset", "mvreg.reset", "orswot.apply", "mvreg.apply", "orswot.merge", "mvreg.merge", "ctx.*", "orswot.add", "orswot.rm", "orswot.rm_all", "mvreg.write", "orswot.contains", "orswot.read"],
-             extra_as=["REFUTED on the unchanged tree (T1, T2, T3): the check relies on the correspondence of the faithful model, the Coq refutation witnesses, and the monitors' known-finding classes; no positive refinement theorem for any Map fragment"],
-             undischarged=["C05_map_claim: 'key present iff an applied update is not covered by an applied remove; value = the surviving nested updates' outside T1/T2/T3 (monitored only)"]),
+             extra_as=["the VALUE half of the property is REFUTED on the unchanged tree (T1, T2, T3): for it the check relies on the correspondence of the faithful model, the Coq refutation witnesses, and the monitors' known-finding classes",
+                       "the KEY half (key set, entry clocks = surviving witnesses, contexts, pending-remove table) is PROVED for every nested value type (proofs/MapKeys.v: Map's key layer simulates an Orswot) and monitored by the extracted decider mkeyspec_ok, which no known finding can mask",
+                       "histories of API-generated ops (update with a context from a read for the replica's own actor; rm with the context of get/read_ctx/len/is_empty), per-actor delivery order, duplicates, merges"],
+             undischarged=["C05_map_value_claim: 'value of a present key = the surviving nested updates' outside T1/T2/T3 (monitored only; refuted inside)"]),
     "C06": P(["mvreg"], ["mvreg.apply", "mvreg.merge", "mvreg.read", "mvreg.read_ctx", "mvreg.write", "ctx.*"],
              extra_as=["writes are generated through the API with the context of a read; no delivery-order assumption"]),
     "C10": P(["vclock"], ["vclock.*", "dot.*"], quick=1000, all_inputs=True,
